@@ -914,10 +914,52 @@ def _gather(I, t, dim, index):
 
 
 def f_arange(I, *a, dtype=None, device=None, **k):
-    if len(a) != 1:
-        raise Unsupported("arange(start, stop) with symbolic bounds")
+    """arange(n) / arange(start, stop[, step]) with symbolic bounds and a positive step: ceil((stop - start) / step) elements
+    start + i * step (none when stop <= start)"""
     dt = ct.dtype_tag(dtype, "long")
-    return ST((a[0],), (lambda i: z3.ToReal(to_z3(i))) if dt == "float" else (lambda i: to_z3(i)), dt)
+    if len(a) == 1:
+        start, stop, step = 0, a[0], 1
+    elif len(a) in (2, 3):
+        start, stop, step = a[0], a[1], (a[2] if len(a) == 3 else 1)
+    else:
+        raise Unsupported("arange arguments")
+    if len(a) == 1:
+        n = stop
+        val = lambda i: to_z3(i)
+    else:
+        st_ = to_z3(step)
+        if not (z3.is_int_value(z3.simplify(st_)) and z3.simplify(st_).as_long() >= 1):
+            I.ex.oblige("arange.step_is_positive", st_ >= 1)
+        span = to_z3(stop) - to_z3(start)
+        n = z3.simplify(z3.If(span > 0, (span + st_ - 1) / st_, 0))
+        val = lambda i: to_z3(start) + to_z3(i) * st_
+    return ST((n,), (lambda i: z3.ToReal(val(i))) if dt == "float" else (lambda i: val(i)), dt)
+
+
+def f_stack(I, ts, dim=0):
+    """stack of tensors of one shape along a new dimension"""
+    ts = list(ts)
+    if not ts or not all(isinstance(x, ST) for x in ts):
+        raise Unsupported("stack other than of symbolic-shape tensors")
+    r = len(ts[0].shape) + 1
+    d = dim % r
+    for x in ts[1:]:
+        for p_, q_ in zip(x.shape, ts[0].shape):
+            if not dim_eq(p_, q_):
+                I.ex.oblige("stack.shapes_agree", to_z3(p_) == to_z3(q_))
+    es = [x.elem for x in ts]
+
+    def elem(*idx):
+        c = idx[d]
+        rest = list(idx[:d]) + list(idx[d + 1:])
+        if isinstance(c, int):
+            return es[c](*rest)
+        out = es[-1](*rest)
+        for j in range(len(es) - 2, -1, -1):
+            out = sc_where(to_z3(c) == j, es[j](*rest), out)
+        return out
+
+    return ST(ts[0].shape[:d] + (len(ts),) + ts[0].shape[d:], elem, ts[0].dtype)
 
 
 def f_empty(I, *size, dtype=None, device=None, **k):
@@ -975,7 +1017,7 @@ def dispatch(name, ct_fn):
 
 
 METH["softmax"] = f_softmax
-FUNCS.update({"torch.cat": f_cat, "torch.ones": f_ones, "torch.zeros": f_zeros, "torch.nn.functional.softmax": f_softmax, "torch.softmax": f_softmax, "torch.pow": f_pow, "torch.matmul": lambda I, a, b: _matmul(I, a, b), "torch.empty": f_empty, "torch.arange": f_arange, "torch.full": f_full, "torch.full_like": f_full_like, "torch.where": f_where, "torch.min": f_min})
+FUNCS.update({"torch.stack": f_stack, "torch.cat": f_cat, "torch.ones": f_ones, "torch.zeros": f_zeros, "torch.nn.functional.softmax": f_softmax, "torch.softmax": f_softmax, "torch.pow": f_pow, "torch.matmul": lambda I, a, b: _matmul(I, a, b), "torch.empty": f_empty, "torch.arange": f_arange, "torch.full": f_full, "torch.full_like": f_full_like, "torch.where": f_where, "torch.min": f_min})
 
 
 def stubs():
